@@ -342,7 +342,7 @@ class Engine:
                 p.heap.store(r, '$items:int', arr); p.heap.store(r, '$len', m); p.pc += [0 <= m, m <= n]
                 p.facts.append(Schematic(1, lambda k: Implies(And(0 <= k, k < m), And(0 <= arr[k], arr[k] < n, cond(arr[k]), Implies(k + 1 < m, arr[k] < arr[k + 1]))), 'comp-sound-increasing'))
                 p.facts.append(Schematic(1, lambda j: Implies(And(0 <= j, j < n, cond(j)), And(0 <= v(j), v(j) < m, arr[v(j)] == j)), 'comp-complete'))
-                return V('list[int]', r)
+                return V('list[int]', r, comp_witness=v)          # the completeness witness is available to sidecars (ghost definitions)
             if len(e.generators) != 1 or not isinstance(e.elt, ast.Name) or not isinstance(e.generators[0].target, ast.Name) \
                or e.elt.id != e.generators[0].target.id or len(e.generators[0].ifs) > 1: raise Unsupported('list comprehension form')
             g = e.generators[0]; src = self.ev(g.iter, p)
@@ -521,6 +521,7 @@ class Engine:
         if isinstance(s, ast.Expr) and isinstance(s.value, ast.Yield):
             # generator function: the yielded values are appended to the ghost result lists p.env['$yield<k>'] (created by the sidecar's bind)
             val = self.ev(s.value.value, p); parts = val.kw['elts'] if val.kind == 'tuple' else [val]
+            if hasattr(self.spec, 'on_yield'): self.spec.on_yield(self, p)          # ghost definitions for the record about to be yielded
             for k_, v_ in enumerate(parts):
                 if f'$yield{k_}' not in p.env: raise Unsupported('yield without ghost result lists')
                 self.lappend(p.env[f'$yield{k_}'], v_, p, s.lineno)
@@ -598,6 +599,17 @@ class Engine:
         if isinstance(s, ast.Continue): return [Outcome('continue', p)]
         raise Unsupported(ast.dump(s)[:120])
     # -------------------------------------------------------------------------------------------- loops
+    def _assume_inv(self, inv, ch, q, pre, *idx):
+        """assume the invariant on path q.  The sidecar's quantified conjuncts are closures that are instantiated LATER (at discharge time);
+        they must talk about the state at the loop head, not about the heap object that the body goes on mutating: the invariant is therefore
+        evaluated on a frozen copy of q, and whatever it added to that copy (path facts, ghost definitions) is carried over to q."""
+        snap = q.fork(); n_pc, n_f = len(snap.pc), len(snap.facts); env0 = dict(snap.env)
+        for label, g in inv(self, ch, snap, pre, *idx): q.pc.append(g)
+        q.pc += snap.pc[n_pc:]; q.facts += snap.facts[n_f:]
+        q.heap = snap.heap.copy()                       # an invariant may itself re-state loop state (e.g. the allocated set); snap.heap stays frozen
+        for k_, v_ in snap.env.items():                 # ghost bindings a sidecar keeps on the path (e.g. witnesses carried through a loop)
+            if env0.get(k_) is not v_: q.env[k_] = v_
+        q.fresh = list(dict.fromkeys(q.fresh + snap.fresh))
     def while_loop(self, s, p):
         """while cond: body — cut by the sidecar invariant spec.while_invariants[k](E, ctx, p, pre) (k = ordinal among the function's
         while statements, ast.walk order).  Partial correctness only: termination is not verified."""
@@ -633,8 +645,7 @@ class Engine:
             for nme in wn:
                 if nme in q.env and (q.env[nme].kind in ('int', 'bool', 'str', 'ref') or q.env[nme].kind.startswith('list[')):
                     q.env[nme] = V(q.env[nme].kind, fresh(f'{nme}_W{k}{tag}', sort_of(q.env[nme].kind)))
-        b = p.fork(); havoc(b, 'i'); ch = Ctx('hyp')
-        for label, g in inv(self, ch, b, pre): b.pc.append(g)
+        b = p.fork(); havoc(b, 'i'); ch = Ctx('hyp'); self._assume_inv(inv, ch, b, pre)
         b.facts += ch.schem
         c = self.truth(self.ev(s.test, b), b)
         body = b.fork(); body.pc.append(c); outs = []
@@ -759,8 +770,7 @@ class Engine:
         outs = []
         # arbitrary iteration
         b = p.fork(); havoc(b, 'i'); i = fresh(f'i{k}', I); b.pc += [0 <= i, i < n]
-        ch = Ctx('hyp')
-        for label, g in inv(self, ch, b, pre, i): b.pc.append(g)
+        ch = Ctx('hyp'); self._assume_inv(inv, ch, b, pre, i)
         b.facts += ch.schem; bindf(b, i); b.env[f'$i{k}'] = vint(i)            # the loop index is visible to inner invariants as pre.env['$i<k>']
         for o in self.block(s.body, b):
             if o.kind in ('next', 'continue'):
@@ -768,8 +778,7 @@ class Engine:
             elif o.kind == 'break': outs.append(Outcome('next', o.path))
             else: outs.append(o)                    # return / raise propagate
         # normal exit
-        a = p.fork(); havoc(a, 'x'); ch = Ctx('hyp')
-        for label, g in inv(self, ch, a, pre, n): a.pc.append(g)
+        a = p.fork(); havoc(a, 'x'); ch = Ctx('hyp'); self._assume_inv(inv, ch, a, pre, n)
         a.facts += ch.schem
         if s.orelse: outs += self.block(s.orelse, a)
         else: outs.append(Outcome('next', a))
@@ -876,6 +885,9 @@ def decide(E, spec, timeout=60000, B=2, exclude=()):
 def discharge_rel(ob, spec, timeout=60000):
     """relevance filtering (the `uses=` of DESIGN §2.1): first try with the hypotheses the sidecar names as relevant for this kind of
     obligation (sound: fewer hypotheses), then with all of them"""
+    # cheapest first: few candidates per bound variable (the needed ones are almost always the skolems and loop indices)
+    r, dt, n, s = discharge_typed(ob, timeout=min(timeout, 15000), cap_per_var=8)
+    if r == z3.unsat: return r, dt, n, s
     rel = spec.relevant(ob.label) if hasattr(spec, 'relevant') else None
     if rel is not None:
         keep = [sc for sc in ob.schem if any(sc.name.startswith(pfx) if pfx else sc.name == '' for pfx in rel)]
@@ -1081,7 +1093,9 @@ def verify(rep, prop, fn, spec, select=None, exclude=(), replay=None, fallback=N
         k = counts.get(ob.label, 0); counts[ob.label] = k + 1
         always = ob.label.startswith(('loop', 'no-', 'frame', 'pre:'))
         if select is not None and not always and not select(ob.label): continue
-        o = core.Ob(f'{prop}/{fn.name}/{ob.label}' + (f'#{k}' if k else ''), fn, backend, st, dt, detail=det if st != 'refuted' else f'{det}: {mv}', clause=ob.label)
+        # line numbers in labels are made relative to the function's first line, so that edits elsewhere in the file do not rename obligations
+        rel_label = _re.sub(r'@(\d+)', lambda m_: '@+%d' % (int(m_.group(1)) - fn.line), ob.label)
+        o = core.Ob(f'{prop}/{fn.name}/{rel_label}' + (f'#{k}' if k else ''), fn, backend, st, dt, detail=det if st != 'refuted' else f'{det}: {mv}', clause=ob.label)
         if exclude: o.id += '[excluding:' + ','.join(exclude) + ']'
         if st == 'refuted':
             rp = None
